@@ -241,6 +241,18 @@ def post_months_inc(start_date, months, eomonth, result):
     return result == xm(k2) + d - 1
 
 
+def pre_edate(start_date, months):
+    return pre_months_inc(start_date, months, False)
+
+
+def post_edate(start_date, months, result):
+    return post_months_inc(start_date, months, False, result)
+
+
+def post_eomonth(start_date, months, result):
+    return post_months_inc(start_date, months, True, result)
+
+
 def triple_of(n):
     if n == 60:
         return (1900, 2, 29)
@@ -285,6 +297,11 @@ CONTRACTS += [
              requires=[pre_sn_any], ensures=[post_weekday], apply_decorators=True),
     Contract(MI, 'C17', params=dict(start_date=Int(), months=Int(), eomonth=Union(Const(True), Const(False))),
              requires=[pre_months_inc], ensures=[post_months_inc], modular=[DATE, MDIM]),
+    # the public functions: thin wrappers, but what a formula calls
+    Contract('pycel.lib.date_time:edate', 'C17', params=dict(start_date=Int(), months=Int()),
+             requires=[pre_edate], ensures=[post_edate], modular=[DATE, MDIM]),
+    Contract('pycel.lib.date_time:eomonth', 'C17', params=dict(start_date=Int(), months=Int()),
+             requires=[pre_edate], ensures=[post_eomonth], modular=[DATE, MDIM]),
     Contract(MI, 'C17', name='months_inc[types]',
              params=dict(start_date=Union(Int(), Float(), Bool(), NoneT()),
                          months=Union(Int(), Float(), Bool(), NoneT()),
@@ -337,6 +354,18 @@ def lem_time_in_range_and_nearest(n, s):
     return in_range and near
 
 
+def lem_hour_minute_second_agree(n, s):
+    """the public HOUR, MINUTE and SECOND describe ONE time of day: together they are the nearest whole second of the
+    fraction of the serial number (wrapping at midnight), each in its range"""
+    from pycel.lib.date_time import hour, minute, second
+    x = n + s / 86400
+    h, m, sec = hour(x), minute(x), second(x)
+    total = h * 3600 + m * 60 + sec
+    in_range = 0 <= h < 24 and 0 <= m < 60 and 0 <= sec < 60
+    near = abs(total - s) <= 0.5 + 2e-6 or abs(total + 86400 - s) <= 0.5 + 2e-6
+    return in_range and near
+
+
 def time_pre_real(n, s):
     return 0 <= n <= MAX_SERIAL and 0 <= s < 86400
 
@@ -375,6 +404,8 @@ LEMMAS = [
     Lemma('weekday_has_period_7', 'C17', dict(n=Int(0, MAX_SERIAL - 7)), lem_weekday_period),
     Lemma('time_is_nearest_second_and_carries', 'C17', dict(n=Int(), s=Float()), lem_time_in_range_and_nearest,
           requires=[time_pre_real], notes='no second 60: the seconds carry into minutes and hours (A-FLOAT: reals)'),
+    Lemma('hour_minute_second_agree', 'C17', dict(n=Int(), s=Float()), lem_hour_minute_second_agree,
+          requires=[time_pre_real], notes='the three public functions, through their wrapper, on a numeric serial number'),
     Lemma('hour_minute_second_decompose_exact_seconds', 'C17', dict(n=Int(), k=Int()), lem_time_decompose,
           requires=[time_pre]),
     Lemma('yearfrac_symmetric', 'C17',
